@@ -1,6 +1,7 @@
 package c09
 
 import (
+	"bytes"
 	"context"
 	"crypto/ed25519"
 	"fmt"
@@ -249,7 +250,7 @@ func (x *executor) run() []failure {
 	// epilogue: everything is read; then the clock moves past a complete collection of every store and
 	// everything is read again: by then a peer is listed iff it has a live address.
 	x.step = len(x.h.Steps)
-	x.readAll(nil, "")
+	x.readAll(everything, "")
 	if len(x.fails) > 0 {
 		return x.fails
 	}
@@ -258,7 +259,7 @@ func (x *executor) run() []failure {
 		settle = d
 	}
 	x.advance(settle)
-	x.readAll(nil, "")
+	x.readAll(everything, "")
 	return x.fails
 }
 
@@ -539,14 +540,17 @@ func seqString(have bool, seq uint64) string {
 	return fmt.Sprint(seq)
 }
 
-// readAll performs the given reads (nil = every read for every peer) on every store.
-func (x *executor) readAll(reads []read, suffix string) {
-	if reads == nil {
-		for pi := 0; pi < nPeers; pi++ {
-			reads = append(reads, read{rdAddrs, pi}, read{rdRecord, pi})
-		}
-		reads = append(reads, read{rdPeers, 0})
+// everything is the complete observation: every read for every peer.
+var everything = func() []read {
+	var reads []read
+	for pi := 0; pi < nPeers; pi++ {
+		reads = append(reads, read{rdAddrs, pi}, read{rdRecord, pi})
 	}
+	return append(reads, read{rdPeers, 0})
+}()
+
+// readAll performs the given reads on every store.
+func (x *executor) readAll(reads []read, suffix string) {
 	for _, rd := range reads {
 		for _, st := range x.stores {
 			x.read(st, rd, suffix)
@@ -584,7 +588,9 @@ func (x *executor) read(st *liveStore, rd read, suffix string) {
 		got, unknown, dups := basesOf(st.ab.Addrs(uni.pids[rd.Peer]))
 		want := m.live(rd.Peer)
 		if dups > 0 {
-			x.st["addrs_answer_repeats_an_address/"+st.cfg.class()]++
+			// "returns exactly the addresses ...": each once (a repeated address means it is stored twice)
+			x.fail(st, "addrs-repeated"+suffix, "Addrs(P%d) lists an address more than once: %v", rd.Peer, st.ab.Addrs(uni.pids[rd.Peer]))
+			return
 		}
 		if unknown != "" {
 			x.fail(st, "addrs-unknown"+suffix, "Addrs(P%d) returned %s which is not an address of the universe in stored form (own /p2p suffix must be stripped)", rd.Peer, unknown)
@@ -616,9 +622,10 @@ func (x *executor) read(st *liveStore, rd read, suffix string) {
 			x.fail(st, "record-lost"+suffix, "GetPeerRecord(P%d) = nil; statement: record seq=%d retrievable (peer continuously had live addresses: %s)", rd.Peer, want.seq, basesString(m.live(rd.Peer)))
 		default:
 			x.st["read/record_nonnil"]++
-			got, err := recordIdentity(env)
-			wantID, _ := recordIdentity(uni.envelopeByKey(m.peers[rd.Peer].recKey))
-			if err != nil || got != wantID {
+			wantEnv := uni.envelopeByKey(m.peers[rd.Peer].recKey)
+			if !bytes.Equal(env.RawPayload, wantEnv.RawPayload) || !bytes.Equal(env.PayloadType, wantEnv.PayloadType) || !env.PublicKey.Equals(wantEnv.PublicKey) {
+				got, err := recordIdentity(env)
+				wantID, _ := recordIdentity(wantEnv)
 				x.fail(st, "record-wrong"+suffix, "GetPeerRecord(P%d) = %s (err %v); statement: the last accepted record %s", rd.Peer, got, err, wantID)
 			}
 		}
@@ -674,7 +681,7 @@ func basesOf(addrs []ma.Multiaddr) (bases []int, unknown string, dups int) {
 			return nil, a.String(), 0
 		}
 		if seen[b] {
-			dups++ // answers are compared as sets; a repeated address is only counted
+			dups++
 			continue
 		}
 		seen[b] = true
